@@ -203,7 +203,7 @@ def expected_columns(center, method, rs):
     return sorted(base)
 
 
-def record_compute_features(case, call=None, stub=None):
+def record_compute_features(case, call=None, stub=None, opts_obj=None):
     """Run compute_features (or `call(sig, fs, f_range, **opts)`) on a generated case and return the trace case."""
     from bycycle.features import compute_features
     opts = {k: v for k, v in case['opts'].items()}
@@ -220,7 +220,7 @@ def record_compute_features(case, call=None, stub=None):
     rec = Recorder(e, stub)
     raised, df = '', None
     import copy
-    opts_run = copy.deepcopy(opts)
+    opts_run = copy.deepcopy(opts) if opts_obj is None else opts_obj      # opts_obj: the caller's own (shared, possibly re-used) option objects
     sig_run = sig.copy()
     with interpose.replaced(rec.mapping()):
         try:
